@@ -933,6 +933,32 @@ theorem temporal_stamps_readUnixTime (trunc : α → Int) (htz : TV.ObsTime.Trun
     intro p hp
     exact (stamp_is_readUnixTime trunc htz ms hms p.t (hnn p hp)).1
 
+/-- S2'' `spatial_first_stamp_carried`. The first output of `__resampleSpatial` is `track.getFirstObs().copy()`: it carries the
+first fix's own `ObsTime` `s` instead of `readUnixTime` of its time (`spatialStampsG`). When that stamp is a well-formed calendar
+stamp (`t₀ = s.toAbsTime()`), this is the same list of timestamps as re-reading every output's time (`stampG`), so S2' describes
+the stamps the track really holds. (Exact arithmetic: C03's round trip `readUnixTime(toAbsTime()) = id`; in doubles the carried
+stamp may be one millisecond later than the re-read one — the harness compares output 0 with the first fix's own stamp.) -/
+theorem spatial_first_stamp_carried (trunc : α → Int) (htz : TV.ObsTime.TruncZ trunc)
+    (P : List (Fix α)) (legs : List α) (hlen : legs.length + 1 = P.length) (hlegs : ∀ x ∈ legs, 0 ≤ x)
+    (hT : (P.map (·.t)).Pairwise (· ≤ ·)) (ds : α) (hds : 0 < ds)
+    (s : TV.ObsTime.Stamp) (hs : TV.ObsTime.WFs s) (h0 : (P[0]'(by omega)).t = TV.ObsTime.toAbsG s.toZ) :
+    ∃ out, resampleSpatialLegs trunc P legs ds = .ok out ∧
+      spatialStampsG trunc s.toZ out = out.map (fun p => stampG trunc p.t) := by
+  obtain ⟨N, heq, _, _⟩ := spatial_samples trunc (truncSpec_of_truncZ htz) P legs hlen hlegs hT ds hds
+  refine ⟨_, heq, ?_⟩
+  have hrt : stampG trunc (P[0]'(by omega)).t = some s.toZ := by
+    obtain ⟨hd, hms⟩ := hs
+    have e : (TV.ObsTime.toAbsG s.toZ : α) = ((TV.ObsTime.toAbsSec s.d : Nat) : α) + (s.ms : α) / 1000 := by
+      rw [TV.ObsTime.toAbsG_toZ s hd.2.2.2.1]
+      simp only [TV.ObsTime.toAbsMs, Nat.cast_add, Nat.cast_mul, Nat.cast_ofNat]; ring
+    have hf0 : (0 : α) ≤ (s.ms : α) / 1000 := by positivity
+    have hf1 : (s.ms : α) / 1000 < 1 := by
+      rw [div_lt_one (by norm_num)]; exact_mod_cast hms
+    unfold stampG
+    rw [h0, e, TV.ObsTime.readUnixG_nat_add_frac trunc htz _ _ hf0 hf1, TV.ObsTime.ms_exact trunc htz,
+      TV.ObsTime.readUnix_toAbs s.d hd]
+  simp only [spatialStampsG, List.map_cons, hrt]
+
 /-! ### the clamp of the interpolated time (fix commit 20ed89f) -/
 
 /-- T4c `spatial_clamp_exact`. In exact arithmetic the clamp `T = min(max(T, t_bwd), t_fwd)` added to `__resampleSpatial`
